@@ -26,9 +26,22 @@ pub struct Case {
     /// per link: number of NAKs charged before the ticks start (depresses the window)
     pub naks: Vec<u8>,
     pub ticks: Vec<Tick>,
+    /// one link is made stall-gated before the ticks start (loaded, silent for so many ms beside a healthy link,
+    /// then a routing decision through the real handle_srt_packet): the stall guard also runs in classic mode
+    #[serde(default)]
+    pub gate: Option<(u8, u16)>,
 }
 
 pub fn strategy() -> impl Strategy<Value = Case> {
+    (strategy_plain(), prop::option::weighted(0.4, (any::<u8>(), prop_oneof![Just(300u16), Just(3001), 250u16..4500]))).prop_map(|(mut c, g)| {
+        if c.naks.len() >= 2 {
+            c.gate = g;
+        }
+        c
+    })
+}
+
+fn strategy_plain() -> impl Strategy<Value = Case> {
     (1usize..=3).prop_flat_map(|n| {
         (
             vec(prop_oneof![Just(0u8), 1u8..40, 150u8..200], n),
@@ -38,7 +51,7 @@ pub fn strategy() -> impl Strategy<Value = Case> {
                 1..14,
             ),
         )
-            .prop_map(|(naks, ticks)| Case { naks, ticks })
+            .prop_map(|(naks, ticks)| Case { naks, ticks, gate: None })
     })
 }
 
@@ -59,6 +72,37 @@ pub fn check(case: &Case, obs: &mut Obs) -> CheckResult {
         }
     }
     let _ = sh.drain_client();
+    if let Some((g, silent_ms)) = case.gate
+        && n >= 2
+    {
+        use srtla_send::sender::verif_hooks as vh;
+        let v = g as usize % n;
+        let pkt = |seq: u32| -> Vec<u8> {
+            let mut p = vec![0u8; 40];
+            p[0..4].copy_from_slice(&seq.to_be_bytes());
+            p[4] = 0xc0;
+            p
+        };
+        let t = sh.now();
+        for k in 0..40u32 {
+            let p = pkt(50_000 + k);
+            let Shell { rt, st } = &mut sh;
+            rt.block_on(vh::forward_via_connection(v, &p, Some(50_000 + k), &mut st.conns, &st.conn_io, &mut st.last_selected, &mut st.seq_tracker, t));
+        }
+        sh.flush_tick();
+        sh.advance(silent_ms as u64);
+        for h in 0..n {
+            if h != v {
+                sh.uplink_pkt(h, &[0x80, 0x06, 0, 0, 0, 0, 0, 0]);
+            }
+        }
+        sh.client_pkt(&pkt(60_000));
+        sh.flush_tick();
+        let _ = sh.drain_wire();
+        if sh.st.conns[v].is_stall_gated() {
+            obs.class("a-link-is-stall-gated-during-the-ticks");
+        }
+    }
     let mut classic_ticks = 0u32;
     let mut enhanced_raised = false;
     let mut depressed_seen = false;
